@@ -21,7 +21,7 @@
 From Coq Require Import ZArith List Bool Lia.
 Import ListNotations.
 From Osmo Require Import Base.DecModel C15.Model C15.Spec C15.ProofsMap C15.ProofsStep C15.ProofsInv1
-  C15.ProofsCoins C15.ProofsInv2 C15.ProofsSpec C15.ProofsMain.
+  C15.ProofsCoins C15.ProofsInv2 C15.ProofsSpec C15.ProofsMain C15.Keys C15.ProofsKeys.
 Open Scope Z_scope.
 
 (* the recorded total shares equal the sum of the position shares, after every history *)
@@ -112,6 +112,14 @@ Theorem C15_delete_or_zero_claim_removes : forall tr st rv n x, hist tr st ->
 Proof. intros tr st rv n x H; split; [apply delete_removes|apply zero_claim_removes]; assumption. Qed.
 Print Assumptions C15_delete_or_zero_claim_removes.
 
+(* plain API: a record's reference point never exceeds the accumulator value, so the subtraction in GetTotalRewards
+   cannot go negative there (the check the code's TODO asks for is redundant for the non-interval API) *)
+Theorem C15_plain_snapshot_below_value : forall tr st, hist tr st -> plain tr ->
+  forall n r c, p_get n (a_pos st) = Some r -> a_content st = Some c ->
+  forall d, amt d (r_snap r) <= amt d (c_value c).
+Proof. exact plain_snapshot_below_value. Qed.
+Print Assumptions C15_plain_snapshot_below_value.
+
 (* a call that returns an error has no effect; the calls that return an error are exactly the ones the property
    lists ([invalid]: unknown name, non-positive share change, removing more than held, negative rewards) *)
 Theorem C15_errors_have_no_effect : forall tr st rv o, hist tr st -> dom tr o -> recv_ok st rv o ->
@@ -123,8 +131,31 @@ Proof.
 Qed.
 Print Assumptions C15_errors_have_no_effect.
 
-(* several accumulators in one store do not interfere (disjoint key prefixes), and a call made through a freshly
-   fetched AccumulatorObject (GetAccumulator, as every caller in /repo does) is a [hist] step *)
+(* several accumulators in one store.  The world model [wstep] identifies accumulators and positions by abstract
+   ids, i.e. it assumes that different (accumulator, position) pairs have different store keys.  For the key layout
+   of prefix.go (C15/Keys.v, constants regenerated from /repo) this holds when accumulator names contain no '|'
+   ([C15_keys_injective_without_bar]) but NOT for all names that setAccumulator accepts ([C15_keys_full_refuted],
+   witness "acc|"/"p0" vs "acc"/"|p0" - finding C15-F1, replayed on the Go code by corpus/C15/key_collision.json).
+   Under that hypothesis: a call on one accumulator leaves every other accumulator alone, and a call made through a
+   freshly fetched AccumulatorObject (GetAccumulator, as every caller in /repo does) is a [hist] step *)
+Definition C15_keys_full : Prop := forall a1 n1 a2 n2,
+  accum_name_ok a1 = true -> accum_name_ok a2 = true ->
+  format_position_prefix_key a1 n1 = format_position_prefix_key a2 n2 -> a1 = a2 /\ n1 = n2.
+Theorem C15_keys_full_refuted : ~ C15_keys_full.
+Proof.
+  intros H. destruct position_keys_collide as [H1 [H2 [H3 H4]]].
+  destruct (H _ _ _ _ H1 H2 H4) as [E _]. exact (H3 E).
+Qed.
+Print Assumptions C15_keys_full_refuted.
+Theorem C15_keys_injective_without_bar : forall a1 n1 a2 n2, ~ In BAR a1 -> ~ In BAR a2 ->
+  (format_position_prefix_key a1 n1 = format_position_prefix_key a2 n2 -> a1 = a2 /\ n1 = n2) /\
+  (format_accum_prefix_key a1 = format_accum_prefix_key a2 -> a1 = a2) /\
+  format_accum_prefix_key a1 <> format_position_prefix_key a2 n2.
+Proof.
+  intros a1 n1 a2 n2 H1 H2. split; [apply position_keys_injective; assumption|].
+  split; [apply accum_keys_injective|apply accum_key_not_position_key].
+Qed.
+Print Assumptions C15_keys_injective_without_bar.
 Theorem C15_accumulators_independent : forall w o a b,
   match o with WMake a' _ => a' = a | WOp a' _ _ _ => a' = a end -> b <> a ->
   acc_get b (w_accs (snd (wstep w o))) = acc_get b (w_accs w).
